@@ -96,7 +96,7 @@ def run(ctx, f, rep):
     if ua is not None:
         keys_all = False
         collects = False
-        for p in pathq.paths(f, ua, max_visits=2):
+        for p in pathq.paths(f, ua, max_visits=2, inline_async=True):       # (a private helper may hold the loop)
             # the snapshot: keys().cloned().collect() / Vec::from_iter(keys()..) / extend(keys()..) / a loop pushing every key
             for i, ev in pathq.calls(p, "collect", "from_iter", "extend", "push", "push_back"):
                 if any(pathq.mentions_call(a, lambda y: short(y[1]) == "keys") is not None and pathq.mentions_call(a, lambda y: short(y[1]) == "binds") is not None for a in ev.args):
@@ -107,11 +107,11 @@ def run(ctx, f, rep):
                     collects = collects or errd
         rep.check(keys_all, "R17.2", "R17.2|unbind_all-all-keys", "unbind_all walks a snapshot of all keys of the bind table", ua.loc())
         rep.check(collects, "R17.2", "R17.2|unbind_all-collects-errors", "every Err from unbind is pushed to the returned vector", ua.loc())
-        calls_unbind = any(fn and fn["name"] == "unbind" for bb, t, fn in ua.calls())
+        calls_unbind = any(fn and fn["name"] == "unbind" for k in pathq.scope(f, ua, allow_async=True) for bb, t, fn in k.calls())
         rep.check(calls_unbind, "R17.2", "R17.2|unbind_all-calls-unbind", "unbind_all unbinds each endpoint", ua.loc())
     if sd is not None:
         ok = False
-        for p in pathq.paths(f, sd):
+        for p in pathq.paths(f, sd, inline_async=True):
             snd = [i for i, ev in pathq.calls(p, "send") if "oneshot" in ev.name or "Sender" in ev.name]
             joins = [i for i, ev in enumerate(p.events) if pathq.is_poll(ev) and "JoinHandle" in ev.name]
             if snd and joins and snd[0] < joins[0] and p.end == "return":
@@ -119,7 +119,7 @@ def run(ctx, f, rep):
         rep.check(ok, "R17.2", "R17.2|shutdown-stop-then-join", "TaskHandle::shutdown sends on the stop channel and then awaits the join handle before returning", sd.loc())
     if ub is not None:
         ok = False
-        for p in pathq.paths(f, ub):
+        for p in pathq.paths_keeping(f, ub, {sd.j.get("parent")} if sd is not None else set()):
             if p.end == "return" and p.ret is not None and pathq.mentions_call(p.ret, lambda y: pathq.is_poll_of(y, "shutdown")) is not None:
                 ok = True
         rep.check(ok, "R17.2", "R17.2|unbind-awaits-shutdown", "unbind returns the awaited result of the handle's shutdown()", ub.loc())
@@ -132,7 +132,7 @@ def run(ctx, f, rep):
         if s in drops:
             ndrop += 1
             b = drops[s]
-            sh = [fn for bb, t, fn in b.calls() if fn and fn["name"] == "shutdown"]
+            sh = [fn for k in pathq.scope(f, b) for bb, t, fn in k.calls() if fn and fn["name"] == "shutdown"]
             rep.check(bool(sh), "R17.3", "R17.3|%s|drop-calls-shutdown" % s, "%s: Drop calls backend.shutdown()" % s, b.loc())
         elif s in DROP_EXEMPT:
             rep.ok("R17.3", "R17.3|%s|drop-exempt" % s, "%s has no Drop impl: exempt by name: %s" % (s, DROP_EXEMPT[s]))
